@@ -194,7 +194,11 @@ func init() {
 				if rapid.IntRange(0, 2).Draw(t, "hasnext") != 0 {
 					s.Next = pickNode("next")
 				}
-				for j, k := 0, rapid.IntRange(0, 3).Draw(t, "nkids"); j < k; j++ {
+				nk := rapid.IntRange(0, 3).Draw(t, "nkids")
+				if rapid.IntRange(0, 3).Draw(t, "manykids") == 0 {
+					nk = rapid.IntRange(4, 18).Draw(t, "nkids2") // slices that grow past their capacity while references are pending
+				}
+				for j, k := 0, nk; j < k; j++ {
 					if rapid.IntRange(0, 7).Draw(t, "nilkid") == 0 {
 						s.Kids = append(s.Kids, -1)
 					} else {
@@ -224,6 +228,12 @@ func init() {
 			ctx.NonTrivial(shared || cyclic)
 			ctx.LabelIf(shared, "shared")
 			ctx.LabelIf(cyclic, "cyclic")
+			for _, n := range c.Nodes {
+				if len(n.Kids) > 4 {
+					ctx.Label("slice > 4 pointers")
+					break
+				}
+			}
 			ctx.Label("format:" + c.Format)
 			root := c.build()
 			doc, err, bad := marshalDoc(ctx, c.Format, root, cfg)
